@@ -71,6 +71,10 @@ class InProc(Part):
 
 class C05(Prop):
     id = 'C05'
+    registered = True
+    technique = 'Hypothesis-generated worlds run in-process; bracket/balance invariant over the hook trace'
+    level_text = 'Generated layer DAGs with per-test hooks on any subset and histories of tests of every outcome kind (incl. --repeat/--shuffle) are run through the real Runner; an invariant over the pid-tagged trace checks once-per-layer, bases-first, mirrored tear-down and per-layer balance at every event.'
+    level_note = 'Trusts the world runtime (ztv/runtime.py) to log the layer a hook is called on; only Python 3.12.1 behaviour of unittest is exercised.'
     rule = ('Hypothesis worlds: layer DAG (<=5 layers, class/instance, any hook subset), 1-2 modules with nested '
             'suites, tests of every outcome kind, --repeat 1..3, optional shuffle; run in-process; oracle over the '
             'trace of testSetUp/testTearDown/test phases. Non-trivial = some test has >=2 layers with per-test '
